@@ -421,8 +421,9 @@ def check_case(case, explain=False):
         res2 = judge(case, outcome, model(case, eq_means_absent=True))
 
         if set(s for s, _ in res2) != set(s for s, _ in res) or not res2:
-            res = res2 + [(SIG_EMPTY_ASSIGN, f'{res[0][1]}  ["--sources=" / "--outputs=" is treated as if the option had '
-                           f'not been written at all; the result is the one for the command line without it]')]
+            first = next((w for s, w in res if s == 'C12/sources-appeared'), res[0][1])
+            res   = res2 + [(SIG_EMPTY_ASSIGN, f'{first}  ["--sources=" / "--outputs=" is treated as if the option had not '
+                             f'been written at all; the result is the one for the command line without it]')]
 
     if explain:
         shown = outcome if outcome[0] == 'exc' else [{k: v for k, v in c.items() if k != '__cls'} for c in outcome[1]]
